@@ -10,6 +10,9 @@ QUERIES = [
     Query("sign_recoverable", S, "harness_sign_recoverable", unwind=120, unwindset=["secp256k1_ecdsa_sign_inner.0:3", "nonce_function_rfc6979_impl.0:3"], timeout=900,
           desc="secp256k1_ecdsa_sign_recoverable (module not compiled in the pinned build): masking and recovery id formula",
           bounds="<= 2 nonce attempts"),
+    Query("recover_realwidth", S, "harness_recover", defs=["RECOVER"], unwind=66, timeout=900,
+          desc="secp256k1_ecdsa_sig_recover for all r, s, m < n and recid 0..3: failure set (zero r/s, r >= p-n with recid bit 1, off-curve x, infinite result), x = r (+ n), parity, Q = r^-1 (s R - m G) handed to the curve layer",
+          bounds="fixed-size objects"),
 ]
 LEVEL_TEXT = ("Bounded model checking of the real ECDSA verify/sign code at real width: curve results are free 256-bit values and scalar mul/inverse are uninterpreted functions, "
               "so the verdict covers every boundary (s=(n+-1)/2, r>=p-n, msg>=n, key 0/>=n) and every kernel behaviour.")
@@ -20,5 +23,5 @@ ASSUMPTIONS = ["that ecmult/ecmult_gen compute the group operation is C05's subj
 
 MANIFEST_ENTRY = {
     "text": "Bounded model checking of the real ECDSA verify/sign/sign_recoverable code at real width with curve results as free values and scalar mul/inverse uninterpreted: verify == reference predicate for ALL (r, s, msg, key, x(R)) incl. s=(n+-1)/2 and r>=p-n; sign: failure masking, RFC 6979 key material uses msg mod n, s/r/recid formulas, nonce hand-over, for all keys/messages incl. >= n.",
-    "note": "Not covered: that ecmult/ecmult_gen compute the group law (C05, not encodable), public-key recovery (recover) algebra, end-to-end sign=>verify in a concrete group; retry loop bounded to 2 nonce attempts; 64-bit limb configuration only. Trusted: CBMC/kissat, stubs.",
+    "note": "Not covered: that ecmult/ecmult_gen compute the group law (C05, not encodable), end-to-end sign=>verify in a concrete group; retry loop bounded to 2 nonce attempts; 64-bit limb configuration only. Trusted: CBMC/kissat, stubs.",
 }
